@@ -1024,7 +1024,24 @@ class Parser:
     def _parse_new_expression(self) -> Node:
         """Parse new expression."""
         if self._match(TokenType.NEW):
+            # The callee is a MemberExpression: new a.b(c) constructs a.b
             callee = self._parse_new_expression()
+            while True:
+                if self._match(TokenType.DOT):
+                    if self._check(TokenType.IDENTIFIER):
+                        name = self._advance().value
+                    elif self._is_keyword():
+                        name = self.current.type.name.lower()
+                        self._advance()
+                    else:
+                        raise self._error("Expected property name")
+                    callee = MemberExpression(callee, Identifier(name), computed=False)
+                elif self._match(TokenType.LBRACKET):
+                    prop = self._parse_expression()
+                    self._expect(TokenType.RBRACKET, "Expected ']' after index")
+                    callee = MemberExpression(callee, prop, computed=True)
+                else:
+                    break
             args: List[Node] = []
             if self._match(TokenType.LPAREN):
                 args = self._parse_arguments()
